@@ -13,8 +13,9 @@ import (
 // C06 - track count never changes the music; every track ends when the piece ends.
 
 type C06Case struct {
-	Doc    Doc   `json:"doc"`
-	Tracks []int `json:"tracks"`
+	Doc       Doc   `json:"doc"`
+	Tracks    []int `json:"tracks"`
+	MayRefuse bool  `json:"may_refuse,omitempty"` // contains silences too long for a MIDI delta time: refusing the piece is fine, writing it with a wrong length is not
 }
 
 func rawEvents(song *smfread.Song) (evs []string, eots []int64) {
@@ -35,8 +36,11 @@ func checkC06(c C06Case) *Violation {
 	d := c.Doc
 	d.Flags.Track = 1
 	ctx := fmt.Sprintf("\nargs=%v\n%s", d.Flags.Argv(), d.YAML())
-	_, ref, err := writeDoc(d)
+	res0, ref, err := writeDoc(d)
 	if err != nil {
+		if c.MayRefuse && res0.Exit != 0 && !res0.TimedOut && !res0.Crashed() {
+			return nil
+		}
 		return vio("write-failed", "%v%s", err, ctx)
 	}
 	refEvs, refEots := rawEvents(ref)
@@ -73,8 +77,11 @@ func checkC06(c C06Case) *Violation {
 	for _, n := range c.Tracks {
 		dn := d
 		dn.Flags.Track = n
-		_, song, err := writeDoc(dn)
+		resn, song, err := writeDoc(dn)
 		if err != nil {
+			if c.MayRefuse && resn.Exit != 0 && !resn.TimedOut && !resn.Crashed() {
+				continue // with more tracks the idle time of a track can exceed the limit although --track 1 fits
+			}
 			return vio("write-failed", "--track %d: %v%s", n, err, ctx)
 		}
 		if len(song.Tracks) != n {
@@ -142,7 +149,20 @@ func TestC06(t *testing.T) {
 			n := rapid.OneOf(rapid.SampledFrom([]int{3, 4, 5, 6, 7}), rapid.IntRange(2, 32)).Draw(t, "n")
 			tracks = append(tracks, n)
 		}
-		c := C06Case{Doc: d, Tracks: tracks}
+		mayRefuse := false
+		if coin(t, "very-long-silence", 6) {
+			// consecutive rests, each below 2^32 ticks, together beyond it; and silences around 2^28 ticks
+			k := rapid.IntRange(0, len(d.Insts)).Draw(t, "silence-at")
+			rests := [][]Inst{
+				{{Values: []Frac{{4000000, 1}}}, {Values: []Frac{{473925, 1}}}},
+				{{Values: []Frac{{2236963, 1}}}, {Values: []Frac{{2236963, 1}}}},
+				{{Values: []Frac{{139810, 1}}}, {Values: []Frac{{139810, 1}}}},
+				{{Values: []Frac{{200000, 1}}}, {Values: []Frac{{100000, 1}}}, {Values: []Frac{{4194304, 1}}}},
+			}[rapid.IntRange(0, 3).Draw(t, "silence-kind")]
+			d.Insts = append(d.Insts[:k:k], append(rests, d.Insts[k:]...)...)
+			mayRefuse = true
+		}
+		c := C06Case{Doc: d, Tracks: tracks, MayRefuse: mayRefuse}
 		nt := false
 		var classes []string
 		for i, in := range d.Insts {
@@ -156,6 +176,9 @@ func TestC06(t *testing.T) {
 				nt = true
 				classes = append(classes, "control-change-after-tick-0")
 			}
+		}
+		if mayRefuse {
+			classes = append(classes, "silence-near-or-beyond-what-a-delta-time-holds")
 		}
 		for _, n := range tracks {
 			if n-1 < 4 {
